@@ -282,10 +282,11 @@ var c16Langs = []string{"en", "ja", "fr", "en-US", "ja-JP", "en-GB", "ja-Jpan-JP
 // storm builds the cold-start workload run first in every process: 16 goroutines issue the
 // same operations at the same time before anything else has touched the library. kind
 // selects which part of the API meets its first use concurrently:
-//   0 decode storm (no object decoded beforehand; valid and invalid vectors of all levels)
-//   1 query storm on shared objects (every observer, v3 and v2)
-//   2 report storm (en / ja / fr) on shared objects
-//   3 export storm (several templates, valid and invalid) on shared objects
+//
+//	0 decode storm (no object decoded beforehand; valid and invalid vectors of all levels)
+//	1 query storm on shared objects (every observer, v3 and v2)
+//	2 report storm (en / ja / fr) on shared objects
+//	3 export storm (several templates, valid and invalid) on shared objects
 func storm(kind int) workload {
 	w := workload{Procs: 16, NoShared: kind == 0, Pool: []poolEntry{
 		{Ver: 3, Level: 2, Input: "CVSS:3.1/AV:A/AC:H/PR:L/UI:N/S:C/C:L/I:H/A:L/E:P/RL:O/RC:U/CR:L/IR:M/AR:L/MAV:P/MAC:L/MPR:L/MUI:R/MS:C/MC:H/MI:H/MA:H"},
